@@ -487,6 +487,8 @@ func bindResults(env map[string]T, names []string, rs []T) {
 func (c *Ctx) applyContract(st *State, fr *Frame, instr ssa.Instruction, ct *Contract, name string, sig *types.Signature, fn *ssa.Function, args []T, recv *T, k func(st *State, results []T)) {
 	if ct.Trusted {
 		c.trustedUsed[name] = true
+	} else if fn != nil {
+		c.usedContracts[funcPkgPath(fn)+"::"+relFuncName(fn)] = true
 	}
 	env := c.contractEnv(ct, sig, fn, args, recv)
 	se := &SpecEnv{c: c, st: st, vars: env, pkg: ct.Pkg, old: nil, fr: nil}
